@@ -164,6 +164,17 @@ func thriftGroups(tier string) []group {
 			}
 		}})
 	}
+	// fields with a value mapping (api.js_conv) are read by the annotation's own code
+	for _, op := range jsconvOps() {
+		op := op
+		gs = append(gs, group{"thrift-jsconv/" + op.name, func(tier string, y func(core.Case) bool) {
+			for _, sd := range jsconvSeeds() {
+				if !enumThriftSeedOp(op, sd, y) {
+					return
+				}
+			}
+		}})
+	}
 	for part, nm := range []string{"typed-roots", "descriptor", "readers", "all-bytes-len2"} {
 		part := part
 		gs = append(gs, group{"thrift-short/" + nm, func(tier string, y func(core.Case) bool) { enumShort(tier, part, y) }})
